@@ -163,6 +163,10 @@ def make_uod(run: "Run", totalizer=True):
         cmd.context.tags["Out2"].set_value("Open", run.now)
         cmd.set_complete()
 
+    def area(cmd: UodCommand, number, number_unit, **kw):
+        log(cmd, "exec")
+        cmd.set_complete()
+
     def valve(cmd: UodCommand, option, **kw):
         log(cmd, "exec")
         cmd.context.tags["Out2"].set_value(option, run.now)
@@ -221,6 +225,8 @@ def make_uod(run: "Run", totalizer=True):
          .with_command_overlap(["OvB", "OvC"])       # OvB is in two overlap lists
          .with_command_regex_arguments("SetOut", RegexNumber(units=None), setout, init, fin)
          .with_command_regex_arguments("Set1", RegexNumber(units=None), set1, init, fin)
+         # a hand-written pattern that is not anchored (like the example in the project's documentation)
+         .with_command_regex_arguments("Area", r"(?P<number>[0-9]+[.][0-9]*?|[.][0-9]+|[0-9]+) ?(?P<number_unit>m2)", area, init, fin)
          .with_command_regex_arguments("Valve", RegexCategorical(exclusive_options=["Open", "Closed"]), valve, init, fin)
          .with_command_regex_arguments("Dose", RegexNumber(units=["L", "mL"]), dose, init, fin)
          .with_command_regex_arguments("Boom", RegexNumber(units=None, non_negative=True, int_only=True), boom, init, fin)
